@@ -108,7 +108,9 @@ class SelfDependencyEliminator(ASTStatementRewriter):
         from pymbolic import var
 
         from dagrt.language import Assign
-        for var_name in read_and_written:
+        # (sorted: the order of the temporaries must not depend on hash
+        # randomization)
+        for var_name in sorted(read_and_written):
             tmp_var_name = self.var_name_gen(
                     "temp_"
                     + var_name.replace("<", "_").replace(">", "_"))
